@@ -162,7 +162,7 @@ CONDITIONS = [
      'thorough': 300, 'bound': pipeline.MUTANT_BOUND +
      '; models: trap_loose, trap_any, trap_dict, trap_typed, loose, top_any'},
     {'fn': 'mutants_reach',
-     'slices': [pipeline.slice_for('trap_loose', 0, 2)],
+     'slices': [pipeline.slice_for('trap_loose', 0, 2, 2)],
      'quick': 100, 'thorough': 100, 'expect': 'REFUTED',
      'bound': 'reachability twin: !Trap injected below an Any position'},
 ]
